@@ -250,6 +250,12 @@ def rewriting(which, n, kind):
             g2 = T.masked({1: a})(ident)
             y2 = L.vec(g2(arg))
             obs.append(('masked-single-insert', veq(y2, [x[0], a] + list(x[1:])) if len(y2) == n + 1 else const(False)))
+            g3 = T.masked({n + 1: b, 0: a})(ident)          # keys given in descending order
+            y3 = L.vec(g3(arg))
+            obs.append(('masked-unordered-keys', veq(y3, want) if len(y3) == n + 2 else const(False)))
+            g4 = T.masked('%d:-1.5, 0:10.0' % (n,))(ident)   # string form, unordered
+            y4 = L.vec(g4(arg))
+            obs.append(('masked-string-form', veq(y4, [10.0] + list(x[:n - 1]) + [-1.5] + list(x[n - 1:])) if len(y4) == n + 2 else const(False)))
             obs.append(('input-not-modified', veq(L.vec(arg), x)))
         elif which == 'partial':
             a, b = ctx.real('a'), ctx.real('b')
